@@ -54,6 +54,14 @@ Theorem C02_status_mapping : forall r i,
 Proof. exact status_mapping_holds. Qed.
 Print Assumptions C02_status_mapping.
 
+(* for every configuration and every call list: a recorded (or would-be) redirect interruption carries
+   a status of the whitelist 301 / 302 / 303 / 307, whatever status the rule or its SecDefaultAction has *)
+Theorem C02_redirect_status_whitelisted : forall c ks i,
+  (st_intr (tp_run c ks) = Some i \/ st_dintr (tp_run c ks) = Some i) -> i_kind i = KRedirect ->
+  In (i_status i) tp_redirect_codes.
+Proof. exact redirect_status_whitelisted_holds. Qed.
+Print Assumptions C02_redirect_status_whitelisted.
+
 (* pass, block (not inherited), allow and rules without disruptive action never interrupt *)
 Theorem C02_only_three_interrupt : forall r,
   tp_intr_of r = None <->
